@@ -127,6 +127,10 @@ def run(tier: str, seed: int) -> int:
     G = list(itertools.product([0, 1, 2, 255, 256, 300], grid, grid, [None] + grid))
     rng.shuffle(G)
     G = G[: (600 if tier == "quick" else len(G))]
+    # the corners are always part of the sample: the very bottom of the range, the field borders, a missing tweak next to tweak 0 and 1
+    corners = [(0, 0, 0, None), (0, 0, 0, 0), (0, 0, 0, 1), (0, 0, 1, None), (0, 0, 1, 0), (0, 1, 0, 0), (1, 0, 0, 0), (1, 0, 0, None), (0, 255, 255, 255),
+               (255, 255, 255, 255), (256, 0, 0, 0), (256, 0, 0, None), (300, 0, 0, 1), (1, 2, 3, None), (1, 2, 2, 5), (1, 2, 3, 0)]
+    G = corners + [g for g in G if g not in corners]
     for n, (M, m, p, t) in enumerate(G):
         e = extras[n % len(extras)]
         txt = f"VERSION_MAJOR = {M}\nVERSION_MINOR = {m}\nPATCHLEVEL = {p}\n"
